@@ -23,7 +23,8 @@ class UpdateDomainKwargs(LibModel):
     cls = None
     props = ('C13',)
     modes = ('sound',)
-    trusted = ("update_cls_args: cls_args[cls] is list(inspect.signature(cls.__init__).parameters) = ['self', p1, p2, ...]",)
+    trusted = ("update_cls_args: cls_args[cls] is list(inspect.signature(cls.__init__).parameters) = ['self', p1, p2, ...] "
+               "(proved separately: contract UpdateClsArgs)",)
 
     def modenv(self):
         env = base_modenv()
@@ -328,3 +329,80 @@ class ExtractSelected(LibModel):
 
 
 CONTRACTS += [ExtractSelected]
+
+
+class UpdateClsArgs(LibModel):
+    """predicate.update_cls_args(cls): what positional arguments of a @symbol class are mapped to (rule heads, C11;
+    predicate-form terms, C13) - for a class seen for the first time, cls_args[cls] becomes the parameter names of the class's
+    own constructor, in the constructor's order: list(inspect.signature(cls.__init__).parameters.keys()); a class already
+    known is left alone.  (Discharges the assumption the contracts of update_domain_and_kwargs_from_args and
+    instantiate_class_and_update_cache make about cls_args.)"""
+    qual = 'predicate:update_cls_args'
+    cls = None
+    props = ('C13', 'C11', 'C14')
+    modes = ('sound',)
+    trusted = ("inspect.signature(f).parameters lists the parameters of f in declaration order (standard library)",)
+
+    def modenv(self):
+        env = base_modenv()
+        env['cls_args'] = Obj('clsargs', {})
+        env['inspect'] = C(Ref('module', 'inspect'))
+        return env
+
+    def setup(self, eng):
+        st = State()
+        st.locals['symbolic_cls'] = Obj('theclass', {})
+        st.ghost['stored'] = []
+        st.ghost['known'] = z3.Bool('class_already_known')
+        return [st]
+
+    def getattr(self, eng, st, recv, name):
+        if isinstance(recv, C) and recv.v == Ref('module', 'inspect') and name == 'signature':
+            return [(st, C(Ref('func', 'inspect.signature')))]
+        if isinstance(recv, Obj) and recv.kind == 'theclass' and name == '__init__':
+            return [(st, Obj('ctor', {}))]
+        if isinstance(recv, Obj) and recv.kind == 'sig' and name == 'parameters':
+            return [(st, Obj('params', {'of': recv.data['of']}))]
+        return super().getattr(eng, st, recv, name)
+
+    def f_inspect_signature(self, eng, st, args, kwargs, node):
+        return [(st, Obj('sig', {'of': args[0].kind if args and isinstance(args[0], Obj) else '?'}))]
+
+    def obj_params_keys(self, eng, st, recv, args, kwargs, node):
+        return [(st, Obj('paramkeys', {'of': recv.data['of']}))]
+
+    def f_list(self, eng, st, args, kwargs, node):
+        if len(args) == 1 and isinstance(args[0], Obj) and args[0].kind in ('paramkeys', 'params'):
+            return [(st, Obj('paramlist', {'of': args[0].data['of']}))]
+        return super().f_list(eng, st, args, kwargs, node)
+
+    def compare(self, eng, st, op, a, b):
+        if isinstance(op, (ast.In, ast.NotIn)) and isinstance(a, Obj) and a.kind == 'theclass' and isinstance(b, Obj) and b.kind == 'clsargs':
+            k = st.ghost['known']
+            return ZV(z3.Not(k) if isinstance(op, ast.NotIn) else k, 'bool')
+        return None
+
+    def setitem(self, eng, st, recv, k, v):
+        if isinstance(recv, Obj) and recv.kind == 'clsargs':
+            st = st.clone()
+            st.ghost['stored'] = st.ghost['stored'] + [(k, v)]
+            return [st]
+        return None
+
+    def on_exit(self, eng, o):
+        st = o.st
+        if o.sig not in (NEXT, RETURN):
+            eng.oblige(st, "C11/cls-args/finishes-normally", z3.BoolVal(False))
+            return
+        stored = st.ghost['stored']
+        ok_new = (len(stored) == 1 and isinstance(stored[0][0], Obj) and stored[0][0].kind == 'theclass'
+                  and isinstance(stored[0][1], Obj) and stored[0][1].kind == 'paramlist' and stored[0][1].data['of'] == 'ctor')
+        eng.oblige(st, "C11/cls-args/a-new-class-gets-the-parameter-names-of-its-own-constructor-in-order",
+                   z3.Implies(z3.Not(st.ghost['known']), z3.BoolVal(bool(ok_new))))
+        eng.oblige(st, "C11/cls-args/a-known-class-is-left-alone", z3.Implies(st.ghost['known'], z3.BoolVal(not stored)))
+
+    def signature(self, ob, model):
+        return {}
+
+
+CONTRACTS += [UpdateClsArgs]
